@@ -188,9 +188,9 @@ pub fn c01_focus() -> Focus {
 pub fn c01_scn(name: &str, full: bool) -> ChatScn {
     let mut s = ChatScn::new(name, Cfg::default(), vec![part(0, "alice", "alicia", "au"), part(1, "bob", "bobby", "bu"), part(2, "carol", "caro", "cu"), part(3, "dave", "davy", "du")], 0);
     let churn: Vec<&'static str> = if full {
-        vec!["JOIN #x", "JOIN #y", "PART #x", "KICK #x {peer}", "NICK {alt}", "NICK {peer}", "MODE #x +v {peer}", "MODE #x +h {peer}", "MODE #x +o {peer}", "MODE #x -o {peer}", "MODE #x +q {peer}", "MODE #x +n", "MODE #x -n", "MODE #x +s", "QUIT"]
+        vec!["JOIN #x", "JOIN #y", "PART #x", "KICK #x {peer}", "NICK {alt}", "NICK {peer}", "MODE #x +v {peer}", "MODE #x +h {peer}", "MODE #x +o {peer}", "MODE #x -o {peer}", "MODE #x +q {peer}", "MODE #x +n", "MODE #x -n", "MODE #x +s", "CAP END", "QUIT"]
     } else {
-        vec!["JOIN #x", "JOIN #y", "PART #x", "KICK #x {peer}", "NICK {alt}", "NICK {peer}", "MODE #x +v {peer}", "MODE #x +o {peer}", "MODE #x +n", "QUIT"]
+        vec!["JOIN #x", "JOIN #y", "PART #x", "KICK #x {peer}", "NICK {alt}", "NICK {peer}", "MODE #x +v {peer}", "MODE #x +o {peer}", "MODE #x +n", "CAP END", "QUIT"]
     };
     for slot in 0..3 {
         for t in &churn {
@@ -258,6 +258,45 @@ pub fn c10_scn(name: &str, full: bool) -> ChatScn {
         actor_codes: None, // a NOTICE must produce no line at all on the sender's socket
         closes: false,
     });
+    s
+}
+
+/// "Has voice or a higher rank" on a preconfigured +m channel whose rank lists name the
+/// same nickname more than once: every configured rank is held from the JOIN on, so
+/// taking the higher one away leaves the voice.
+pub fn c10_pre_scn(name: &str, full: bool) -> ChatScn {
+    let cfg = Cfg {
+        label: "preconfigured-#m".into(),
+        channels: vec![crate::scn::CfgChan {
+            name: "#m".into(),
+            flags: "mn".into(),
+            operators: vec!["alice".into()],
+            half_operators: vec!["bob".into()],
+            voices: vec!["bob".into(), "carol".into(), "alice".into()],
+            ..Default::default()
+        }],
+        ..Default::default()
+    };
+    let mut s = ChatScn::new(name, cfg, vec![part(0, "alice", "alicia", "au"), part(1, "bob", "bobby", "bu"), part(2, "carol", "caro", "cu")], 0);
+    for slot in 0..3 {
+        s.alphabet_for.push((slot, "JOIN #m"));
+        s.alphabet_for.push((slot, "PART #m"));
+    }
+    let mut a = vec!["MODE #m -h bob", "MODE #m -v bob", "MODE #m -o alice", "MODE #m -v carol"];
+    if full {
+        a.extend(["MODE #m +h bob", "MODE #m +v bob", "MODE #m -m", "MODE #m -v alice"]);
+    }
+    for t in a {
+        s.alphabet_for.push((0, t));
+    }
+    s.focus = Focus::state_only(&[Cat::Membership, Cat::Ranks, Cat::ChanFlags]);
+    s.invariants = vec!["rank-set", "membership-symmetry"];
+    for slot in 0..3 {
+        for t in ["PRIVMSG #m :x y", "NOTICE #m :x y", "PRIVMSG +#m :x"] {
+            s.probes_for.push((slot, t));
+        }
+    }
+    s.probe_focus = Some(Focus { cats: vec![], relays: true, relay_verbs: Some(vec!["PRIVMSG", "NOTICE"]), actor: true, actor_codes: None, closes: false });
     s
 }
 
@@ -413,7 +452,7 @@ pub fn c08_scn(name: &str, full: bool) -> ChatScn {
     s.prelude = vec![(0, "JOIN #c".into()), (1, "JOIN #c".into()), (2, "JOIN #c".into())];
     let mut a: Vec<&'static str> = vec![
         "MODE #c +o {peer}", "MODE #c -o {peer}", "MODE #c +h {peer}", "MODE #c +v {peer}", "MODE #c -v {peer}", "MODE #c +a {peer}", "MODE #c -q {peer}", "MODE #c -o {me}", "MODE #c +i", "MODE #c +t", "MODE #c +m",
-        "MODE #c +k x", "MODE #c -k", "MODE #c +b dave!*@*", "MODE #c +o-v {peer} {peer}",
+        "MODE #c +k x", "MODE #c -k", "MODE #c +b dave!*@*", "MODE #c +o-v {peer} {peer}", "MODE #c +l 0",
     ];
     if full {
         a.extend(["MODE #c -h {peer}", "MODE #c -a {peer}", "MODE #c +q {peer}", "MODE #c -i", "MODE #c -t", "MODE #c +n", "MODE #c +s", "MODE #c +l 2", "MODE #c -l", "MODE #c -b dave!*@*", "MODE #c +e dave", "MODE #c +I dave", "MODE #c +im", "MODE #c +tn-s", "MODE #c +m-i", "MODE #c -t+n", "MODE #c +s-k", "MODE #c -l+m", "MODE #c +k y", "MODE #c +l 7", "MODE #c -o+o {peer} {peer}", "MODE #c +ov {peer} {peer}", "MODE #c +b"]);
@@ -539,7 +578,7 @@ pub fn c08_matrix(full: bool) -> Vec<Script> {
         let none: Vec<&str> = vec![];
         for l in [
             "MODE #c +i", "MODE #c -i", "MODE #c +m", "MODE #c -m", "MODE #c +t", "MODE #c -t", "MODE #c +n", "MODE #c -n", "MODE #c +s", "MODE #c -s", "MODE #c +k x", "MODE #c -k", "MODE #c +l 2", "MODE #c -l", "MODE #c +b m", "MODE #c -b m",
-            "MODE #c +e m", "MODE #c -e m", "MODE #c +I m", "MODE #c -I m", "MODE #c +im", "MODE #c +tn-s", "MODE #c +m-i", "MODE #c -t+n", "MODE #c +s-k", "MODE #c -l+m", "MODE #c +k y", "MODE #c +l 7", "MODE #c +b", "MODE #c +kl x 3", "MODE #c +o ghost", "MODE #c -v bob", "MODE #c -o bob", "MODE #c -q bob", "MODE #c +b m!u", "MODE #c +e n@h",
+            "MODE #c +e m", "MODE #c -e m", "MODE #c +I m", "MODE #c -I m", "MODE #c +im", "MODE #c +tn-s", "MODE #c +m-i", "MODE #c -t+n", "MODE #c +s-k", "MODE #c -l+m", "MODE #c +k y", "MODE #c +l 7", "MODE #c +l 0", "MODE #c +l 00", "MODE #c +b", "MODE #c +kl x 3", "MODE #c +o ghost", "MODE #c -v bob", "MODE #c -o bob", "MODE #c -q bob", "MODE #c +b m!u", "MODE #c +e n@h",
         ] {
             let mut p = base(&none);
             // give the "minus" forms something to remove
@@ -1106,7 +1145,10 @@ pub fn plan(property: &str, quick: bool) -> Plan {
             property: "C10".into(),
             rule: "E-SEQ BFS: operator alice, sender bob, recipient carol on #c; alphabet MODE #c +-n/m/s, +-b/e masks of the sender, +-v sender, sender JOIN/PART/NICK, recipient AWAY; in every state PRIVMSG and NOTICE probes (channel, present/away/absent nick, absent channel, mixed lists, status target); oracle: deliver iff member-or-open AND not banned-unless-excepted AND (not +m or voice+); refusal => nobody receives, PRIVMSG gets 404; NOTICE produces no line at all on the sender's socket; 301 with the away text".into(),
             assumptions: vec![],
-            parts: vec![Part::Bfs(Box::new(c10_scn("c10-speak", !quick)), lim(if quick { 8 } else { 9 }, 2_000_000, t(40.0, 900.0)))],
+            parts: vec![
+                Part::Bfs(Box::new(c10_scn("c10-speak", !quick)), lim(if quick { 8 } else { 9 }, 2_000_000, t(40.0, 900.0))),
+                Part::Bfs(Box::new(c10_pre_scn("c10-preconfigured-ranks", !quick)), lim(if quick { 5 } else { 7 }, 2_000_000, t(20.0, 600.0))),
+            ],
         },
         "C07" => Plan {
             property: "C07".into(),
@@ -1166,7 +1208,10 @@ pub fn scenarios(property: &str) -> Vec<Box<dyn Scenario>> {
                 v.push(Box::new(c01_scn("c01-audience", full)));
                 v.push(Box::new(c01_ghost(full)));
             }
-            "C10" => v.push(Box::new(c10_scn("c10-speak", full))),
+            "C10" => {
+                v.push(Box::new(c10_scn("c10-speak", full)));
+                v.push(Box::new(c10_pre_scn("c10-preconfigured-ranks", full)));
+            }
             "C07" => v.push(Box::new(c07_scn("c07-evolving", full))),
             "C08" => v.push(Box::new(c08_scn("c08-reach", full))),
             "C09" => v.push(Box::new(c09_scn("c09-rank", full))),
